@@ -10,6 +10,7 @@ of M's property.  A pair that is no longer detected shows a rule that does
 not see through that refactoring.
 
 usage: cross.py [-n MAX] [-j JOBS] [benign-glob [breaking-glob]]
+       cross.py benign [MAX]     pairs of benign patches merged: must stay silent
 """
 import concurrent.futures, glob, json, os, random, re, shutil, subprocess, sys, tempfile, threading
 
@@ -102,8 +103,61 @@ def one(pair):
     return tag, "MISSED", ",".join(props)
 
 
+def both_benign(pair):
+    """Two behaviour-preserving patches merged: the result must be silent."""
+    b1, b2 = pair
+    r = repo()
+    tag = os.path.basename(b1)[:-5] + " + " + os.path.basename(b2)[:-5]
+    if not branch(r, "b", b1) or not branch(r, "m", b2):
+        return tag, "skip", "patch does not apply"
+    sh(["git", "checkout", "-q", "-f", "b"], r, True)
+    mg = sh(["git", "merge", "-q", "--no-edit", "m"], r)
+    if mg.returncode != 0:
+        sh(["git", "merge", "--abort"], r)
+        return tag, "skip", "merge conflict"
+    if sh(["go", "build", "./..."], r).returncode != 0:
+        return tag, "skip", "merged tree does not build"
+    out = sh([BIN, "-property", "all", "-child", "-config", "linux/amd64", "-repo", r], r)
+    if "{" not in out.stdout:
+        return tag, "error", out.stderr[-200:]
+    reps = json.loads(out.stdout[out.stdout.index("{"):])
+    known = json.load(open(os.path.join(VERIF, "known_findings.json")))["findings"]
+    fired = []
+    for pid, rep in reps.items():
+        for ob in rep["Obs"]:
+            if ob["verdict"] in ("violation", "undecided") and not any(
+                    k["status"] == "open" and k["property"] == pid and k["rule"] == ob["rule"] and k["construct"] == ob["construct"] for k in known):
+                fired.append(pid + ":" + ob["rule"] + " " + ob["construct"])
+    if fired:
+        return tag, "ALARM", "; ".join(sorted(set(fired))[:4])
+    return tag, "silent", ""
+
+
+def main_benign(args):
+    n, jobs = 300, 8
+    benign = sorted(glob.glob(os.path.join(VERIF, "mutants/benign/A-*.diff")))
+    bf = {b: files_of(b) for b in benign}
+    pairs = [(a, b) for i, a in enumerate(benign) for b in benign[i + 1:] if bf[a] & bf[b]]
+    random.Random(11).shuffle(pairs)
+    pairs = pairs[:int(args[0]) if args else n]
+    print(f"{len(pairs)} pairs of benign patches")
+    stats = {}
+    try:
+        with concurrent.futures.ThreadPoolExecutor(max_workers=jobs) as ex:
+            for tag, verdict, detail in ex.map(both_benign, pairs):
+                stats[verdict] = stats.get(verdict, 0) + 1
+                if verdict not in ("skip", "silent"):
+                    print(f"{verdict:9s} {tag}  {detail}", flush=True)
+    finally:
+        for d in dirs:
+            shutil.rmtree(d, ignore_errors=True)
+    print(stats)
+
+
 def main():
     args = sys.argv[1:]
+    if args and args[0] == "benign":
+        return main_benign(args[1:])
     n, jobs = 300, 6
     while args and args[0] in ("-n", "-j"):
         if args[0] == "-n":
